@@ -88,7 +88,21 @@ impl Vm {
     })
   }
 
-  /// Create a new module
+  /// Create a new module that is the root of a new package
+  pub(super) fn package_module(&mut self, name: &str, path: &str) -> Ref<Module> {
+    let module = self.module(name, path);
+    let hooks = GcHooks::new(self);
+    hooks.push_root(module);
+
+    let package = hooks.manage(Package::new(module.name(), module));
+    hooks.pop_roots(1);
+
+    self.packages.insert(module.name(), package);
+    module
+  }
+
+  /// Create a new module. A module loaded from a file is reachable
+  /// through its parent module only and never becomes a package itself
   pub(super) fn module(&mut self, name: &str, path: &str) -> Ref<Module> {
     let id = self.emitter.emit();
     let hooks = GcHooks::new(self);
@@ -100,12 +114,8 @@ impl Vm {
     hooks.push_root(module_class);
 
     let module = hooks.manage(Module::new(&hooks, module_class, path, id));
-    hooks.push_root(module);
+    hooks.pop_roots(1);
 
-    let package = hooks.manage(Package::new(name, module));
-    hooks.pop_roots(2);
-
-    self.packages.insert(name, package);
     module
   }
 
